@@ -4,6 +4,8 @@ import (
 	"context"
 	"fmt"
 	"net/http"
+	"strconv"
+	"strings"
 	"time"
 
 	"github.com/thushan/olla/internal/adapter/converter"
@@ -52,12 +54,33 @@ func (s *SecurityAdapters) CreateChainMiddleware() func(http.Handler) http.Handl
 				result, err := s.securityChain.Validate(r.Context(), secReq)
 				if err != nil || !result.Allowed {
 					// Write appropriate error response
-					http.Error(w, "Security validation failed", http.StatusForbidden)
+					s.writeRejection(w, result, err)
 					return
 				}
 			}
 			withAccessLogging.ServeHTTP(w, r)
 		})
+	}
+}
+
+// writeRejection answers a request the security chain refused with the status that tells
+// the client what happened: 429 (with Retry-After) for rate limiting, 413 / 431 for size
+// limits. A blanket 403 would read as "never allowed" and defeats client back-off logic.
+func (s *SecurityAdapters) writeRejection(w http.ResponseWriter, result ports.SecurityResult, err error) {
+	switch {
+	case err != nil:
+		http.Error(w, "Security validation failed", http.StatusForbidden)
+	case strings.HasPrefix(result.Reason, "Rate limit exceeded"):
+		if result.RetryAfter > 0 {
+			w.Header().Set("Retry-After", strconv.Itoa(result.RetryAfter))
+		}
+		http.Error(w, "Too Many Requests", http.StatusTooManyRequests)
+	case strings.HasPrefix(result.Reason, "Request body too large"):
+		http.Error(w, "Request body too large", http.StatusRequestEntityTooLarge)
+	case strings.HasPrefix(result.Reason, "Request headers too large"):
+		http.Error(w, "Request headers too large", http.StatusRequestHeaderFieldsTooLarge)
+	default:
+		http.Error(w, "Security validation failed", http.StatusForbidden)
 	}
 }
 
